@@ -172,7 +172,6 @@ class AsUnknown(Elemwise):
 class Categorize(Blockwise):
     _parameters = ["frame", "categories", "index"]
     operation = staticmethod(_categorize_block)
-    _projection_passthrough = True
 
     @functools.cached_property
     def _meta(self):
